@@ -247,7 +247,7 @@ pub fn run(ctx: &Ctx) -> i32 {
         let batch = ((i / 64) % 4) as usize;
         Some(Case15::Stack { specs: vec![LayerSpec::Dense { input, output, act }], batch, rows: 1, cols: 1, pseed: i, xseed: i + 1, int_data: (i / 256) % 2 == 0, cost: CostKind::Mse, pscale: 1.0 })
     }));
-    let (total, max_batch) = t.pick((24000u64, 3usize), (500000, 5));
+    let (total, max_batch) = t.pick((120000u64, 3usize), (600000, 5));
     let strat = move || (any::<[u8; 8]>(), 0..=max_batch, any::<u64>(), any::<u64>(), any::<bool>(), any::<bool>(), 1..=8usize).boxed();
     st.merge(ctx.run_prop("random-stacks", total, strat, |(b, batch, pseed, xseed, int_data, ce, cdims)| {
         let cost = if *ce { CostKind::CrossEntropy } else { CostKind::Mse };
